@@ -103,43 +103,38 @@ func blockToSeqPair(alignedBlock alignedBlockInfo, ref []byte) alignPair {
 	if len(insertions) > 0 {
 		sort.Sort(byStart(insertions))
 
-		// if we are going to insert multiple insertions into one pair then we will need to keep track
-		// of the coordinate offset after the first one
-		offsets := make([]int, len(alignedBlock.seqpairArray))
-
-		// for every insertion
-		for _, insertion := range insertions {
-			// this is the pair it is already present in, which we will skip:
-			rowNumber := insertion.rowNumber
-			for j, seqPair := range alignedBlock.seqpairArray {
-				// don't reinsert - the insertion already exists in this one
-				if j == rowNumber {
-					continue
-				}
-
-				// if the insertions starts after the (offset) length of this sequence,
-				// we don't have to do anything to this pair here
-				if insertion.start > len(alignedBlock.seqpairArray[j].ref)-offsets[j] {
-					continue
-				}
-
-				// otherwise, we make a slice of gaps to insert into the slices
-				gaps := make([]byte, insertion.length)
-				for k := range gaps {
-					gaps[k] = '-'
-				}
-
-				refSeqArray[j] = refSeqArray[j][:insertion.start+offsets[j]]
-				refSeqArray[j] = append(refSeqArray[j], gaps...)
-				refSeqArray[j] = append(refSeqArray[j], seqPair.ref[insertion.start+offsets[j]:]...)
-
-				queSeqArray[j] = seqPair.query[:insertion.start+offsets[j]]
-				queSeqArray[j] = append(queSeqArray[j], gaps...)
-				queSeqArray[j] = append(queSeqArray[j], seqPair.query[insertion.start+offsets[j]:]...)
-
-				// and we add the relevant offset to account for this insertion in future coordinates
-				offsets[j] += insertion.length
+		// the number of alignment columns that precede each reference position because of
+		// an insertion (in any row) immediately before it
+		insBefore := make([]int, len(ref)+1)
+		for _, I := range insertions {
+			if I.start <= len(ref) && I.length > insBefore[I.start] {
+				insBefore[I.start] = I.length
 			}
+		}
+
+		// re-gap every row so that all rows have the same columns: a row keeps its own
+		// insertion columns and is given gap columns where only other rows have insertions
+		for j, seqPair := range alignedBlock.seqpairArray {
+			newRef := make([]byte, 0, len(seqPair.ref))
+			newQue := make([]byte, 0, len(seqPair.query))
+			refPos := 0 // reference position of the next reference base in this row
+			own := 0    // this row's own insertion columns since the last reference base
+			for k := range seqPair.ref {
+				if seqPair.ref[k] == '-' {
+					own++
+				} else {
+					for ; own < insBefore[refPos]; own++ {
+						newRef = append(newRef, '-')
+						newQue = append(newQue, '-')
+					}
+					own = 0
+					refPos++
+				}
+				newRef = append(newRef, seqPair.ref[k])
+				newQue = append(newQue, seqPair.query[k])
+			}
+			refSeqArray[j] = newRef
+			queSeqArray[j] = newQue
 		}
 	}
 
